@@ -229,6 +229,11 @@ class Lowerer:
             a = self.bv(ch[0])
             c = ch[1].as_long()
             lo, hi = self.interval(ch[0])
+            if c >= (1 << (W - 1)):
+                # the divisor does not fit into W signed bits (it is not part of the interval analysis), BitVecVal(c, W) would
+                # wrap (to 0 for c = 2**32, W = 10); |dividend| < 2**(W-2) <= c, so the floor quotient is 0 or -1
+                zero = z3.BitVecVal(0, W)
+                return zero if lo >= 0 else z3.If(a < zero, z3.BitVecVal(-1, W), zero)
             cb = z3.BitVecVal(c, W)
             if lo >= 0:
                 if c & (c - 1) == 0:
